@@ -1839,6 +1839,15 @@ class Tensor:
 
         for d in range(levels):
             s = shape[depth + d]
+
+            if not isinstance(s, (tuple, list)):
+                #
+                # The shape of an empty flattened rank cannot be
+                # estimated as a tuple (it is 0); do not declare a
+                # shape for the result, it will be estimated
+                #
+                return rank_ids, None
+
             shape[depth + d] = s[0]
             if len(s) == 2:
                 shape.insert(depth + d + 1, s[1])
